@@ -1,5 +1,6 @@
 '''C07 No lossy coercion when values of different types meet.'''
 from sfa.report import Ctx
+from sfa.rules import alignrules
 from sfa.rules import resolve
 
 LEVEL_TEXT = (
@@ -11,7 +12,7 @@ LEVEL_TEXT = (
     'dtype, or is reached only with equal-dtype groups, and no np.hstack/vstack/append/insert/stack touches data; F3: in resolve_dtype '
     'every np.result_type is dominated by a same-family guard or by the negative guard returning object for str / bool / datetime / '
     'timedelta / object mixes (must-dataflow over the guard atoms); TypeBlocks.append widens the row dtype to object on mismatch; '
-    'prepare_iter_for_array forces object on each mixing flag. Not decided: numeric promotion inside NumPy (ints above 2**53 to float, '
+    'prepare_iter_for_array forces object on each mixing flag. Reindex with a fill value: per path, IndexCorrespondence.iloc_src / iloc_dst are read only where has_common / is_subset holds, so labels absent from the source receive the fill value, never another row\'s values. Not decided: numeric promotion inside NumPy (ints above 2**53 to float, '
     'int64+uint64), string width arithmetic of np.result_type — the dtype product is runtime data.')
 
 CLAIM = dict(
@@ -27,3 +28,4 @@ def run(ctx: Ctx) -> None:
     resolve.f1_resolver_operand(ctx)
     resolve.f2_concatenations(ctx)
     resolve.f3_resolver_shape(ctx)
+    alignrules.correspondence_guards(ctx)
